@@ -99,7 +99,7 @@ def mult(x, l):
     return sum(1 for y in l if y == x)
 
 
-def spec_check(sc, impl_rec, ret_rec, drop_rec, base):
+def spec_check(sc, impl_rec, ret_rec, drop_rec, base, refused=False):
     """the property, directly: -> list of what differs.  base: counts before the call"""
     k, v, ok, ins, po = sc
     bad = []
@@ -108,7 +108,7 @@ def spec_check(sc, impl_rec, ret_rec, drop_rec, base):
     outs = [o for _, o in po]
     pre = [p for p, _ in po]
     want_h = outs if ok else pre
-    if ret_rec["ints"].get("status") != (0 if ok else 11):
+    if ret_rec["ints"].get("status") != (2 if refused else 0 if ok else 11):      # Object_ERROR_INVALID = 2
         bad.append("status %s" % ret_rec["ints"].get("status"))
     if ret_rec["objs"] != want_h:
         bad.append("the caller's holders own %s after the call, expected %s" % (ret_rec["objs"], want_h))
@@ -133,7 +133,17 @@ def run(ctx_):
     rng = vlib.mkrng(seed, prop)
     batches = []
     for b in range(nb):
-        batches.append(l2obj.gen_methods(rng, nmeth))
+        ms_ = l2obj.gen_methods(rng, nmeth)
+        # every third method (with at least one input object where possible) is #[optional] and left out by
+        # all three implementation sides
+        pick = [j for j, (nm_, ps_) in enumerate(ms_) if any(d_ == "in" for d_, t_, sh_, pn_ in ps_)]
+        rng.shuffle(pick)
+        for j in pick[:max(1, nmeth // 3)]:
+            ms_[j] = ("x%d" % j, ms_[j][1])
+        kk = len(ms_)
+        ms_ += [("x%d" % kk, [("in", "interface", None, "p0"), ("in", "IFoo", None, "p1"), ("out", "uint32", None, "p2"), ("out", "interface", None, "p3")]),
+                ("x%d" % (kk + 1), [("in", "SO", None, "p0"), ("in", "uint32", None, "p1"), ("out", "SO", None, "p2")])]
+        batches.append(ms_)
     batches.append(l2obj.gen_methods(rng, 0, with_dup_path=True))      # two fields of one object-bearing struct type (C and Rust sides: the C++ skeleton of a nested object path does not compile, C11 K_nested_obj_path)
     DUP = len(batches) - 1
 
@@ -199,7 +209,8 @@ def run(ctx_):
             scs = l2obj.scenarios(methods, NVAL, caller)
             for ii, impl in enumerate(SIDES):
                 recs = runs.get((caller, impl))
-                if recs is None or len(recs) != 3 * len(scs) or any(x["tag"] == "junk" for x in recs):
+                nabs = sum(1 for sc in scs if l2obj.is_absent(methods[sc[0]][0]))
+                if recs is None or len(recs) != 3 * len(scs) - nabs or any(x["tag"] == "junk" for x in recs):
                     res["failures"].append({"property": prop, "idl": idl, "pairing": "%s stub -> %s skeleton" % (caller, impl),
                                             "what": "log of the pairing is incomplete (%s records for %d calls)" % (recs and len(recs), len(scs)),
                                             "observed": r["out"][-800:] + r["err"][-800:]})
@@ -207,13 +218,25 @@ def run(ctx_):
                 if not (ends.get((caller, impl)) or "").endswith("impls=0"):
                     res["failures"].append({"property": prop, "idl": idl, "pairing": "%s stub -> %s skeleton" % (caller, impl),
                                             "what": "implementation objects are still alive after the pairing: %s" % ends.get((caller, impl))})
+                ptr = 0
                 for n, sc in enumerate(scs):
-                    im, rt, dr = recs[3 * n: 3 * n + 3]
                     k, v, ok, ins, po = sc
+                    absent = l2obj.is_absent(methods[k][0])
+                    if absent:
+                        # a method nobody implements: refused by the skeleton, nothing entered, every count
+                        # as before (the caller still owns what it passed and what its holders held)
+                        rt, dr = recs[ptr: ptr + 2]
+                        ptr += 2
+                        im = {"tag": "impl", "k": k, "objs": ins}
+                        sc = (k, v, False, ins, po)
+                        ok = False
+                    else:
+                        im, rt, dr = recs[ptr: ptr + 3]
+                        ptr += 3
                     if (im["tag"], rt["tag"], dr["tag"]) != ("impl", "ret", "drop") or {im["k"], rt["k"], dr["k"]} != {k}:
                         res["failures"].append({"property": prop, "idl": idl, "pairing": "%s -> %s" % (caller, impl), "what": "log out of step at call %d" % n})
                         break
-                    bad = spec_check(sc, im, rt, dr, base)
+                    bad = spec_check(sc, im, rt, dr, base, refused=absent)
                     nscen += 1
                     if ins or po:
                         ndistinct += 1
